@@ -40,7 +40,7 @@ CHECKS.update({
                   "measured on real ciphertext with real keys, every recorded execution validated by TLC (OnionTrace.tla)",
         text="TLC checks ExitIntegrity, ReturnIntegrity, LayerDepth, NoRepeatOnLinks on the spec exhaustively (3 hops, 1 attack "
              "step; 1-2 hops, 2 steps in thorough) and on every recorded execution of the real nodes, including runs that alter "
-             "every header byte and sampled (thorough: every) body byte of in-flight cells on every link in both directions, the exit "
+             "every header byte and sampled (thorough: every byte of short cells, a stride over long ones) body byte of in-flight cells on every link in both directions, the exit "
              "socket's queue while its outside sockets open, and linked hidden-service (e2e) circuits with cells forged by the rendezvous point."
              " Dual-stack hosts (fabricated cells on both interfaces), tunnel data messages arriving from outside at an exit socket (OutsideNested) and cells turned round by the rendezvous point (RPReflect) are adversary actions of the spec and steps of the driver.",
         note="AEAD/HKDF/X25519 idealised (Dolev-Yao); PythonCryptoEndpoint only; for e2e circuits the rendezvous link and the shared "
